@@ -275,6 +275,9 @@ func (w *World) NextBlock(dt time.Duration) (panicMsg string) {
 	}
 	if panicMsg != "" {
 		w.LastBlockPanic = panicMsg
+		if debugTx {
+			fmt.Fprintf(os.Stderr, "[block panic] %s\n", panicMsg)
+		}
 	}
 	return panicMsg
 }
